@@ -64,6 +64,48 @@ def spec_of(gens, cid):
     return None
 
 
+def lost_map_keys(r):
+    """C07, 'map entries appear under their own keys': keys of the value's additional-property maps
+    (every depth) that occur as no member name anywhere in the encoded document. A necessary
+    condition only — used when the output differs from the model's, where the schema reference alone
+    cannot see a dropped entry."""
+    if r.get("op") != "jsonenc":
+        return []
+    try:
+        val = json.loads(bytes.fromhex(r["case"][3]).decode())
+        ic = re.search(r"canon=(\w*)", r["impl"])
+        doc = json.loads(bytes.fromhex(ic.group(1)).decode())
+    except Exception:
+        return []
+    want, have = [], set()
+
+    def walk_val(v):
+        if isinstance(v, list):
+            for x in v:
+                walk_val(x)
+        elif isinstance(v, dict):
+            for kv in v.get("x") or []:
+                if isinstance(kv, list) and len(kv) == 2 and isinstance(kv[0], str):
+                    want.append(kv[0])
+                    walk_val(kv[1])
+            for key in ("f", "v"):
+                if isinstance(v.get(key), (list, dict)):
+                    walk_val(v[key])
+
+    def walk_doc(d):
+        if isinstance(d, dict):
+            for k, x in d.items():
+                have.add(k)
+                walk_doc(x)
+        elif isinstance(d, list):
+            for x in d:
+                walk_doc(x)
+
+    walk_val(val)
+    walk_doc(doc)
+    return sorted(set(k for k in want if k not in have))
+
+
 def decide(ctx, prop, rows, gens):
     st = {"evaluations": 0, "agree_model": 0, "agree_ref": 0, "unmodelled": 0, "kinds": {}, "distinct": set(), "samples": []}
     viol, corr, need_conf = [], [], []
@@ -235,7 +277,14 @@ def decide(ctx, prop, rows, gens):
             if r is None:
                 continue
             st["evaluations"] += 1
-            if a.endswith("conforms=true"):
+            lost = lost_map_keys(r)
+            if lost:
+                # "map entries appear under their own keys": dropping an entry leaves a document that
+                # still validates, so this clause of the property is judged on the value itself
+                r2 = dict(r)
+                r2["model"] = list(r["model"]) + ["R:map entries of the value that appear under no key of the output: " + json.dumps(lost, ensure_ascii=False)]
+                viol.append(r2)
+            elif a.endswith("conforms=true"):
                 st["agree_ref"] += 1
                 corr.append(r)
             else:
